@@ -102,7 +102,7 @@ Proof.
   - pose proof (try_right_steal_spec t Ht h ea pe eb ka l r kb lol H1 H2 Hl Hr Hlt) as Hs. cbn zeta in Hs.
     destruct (Nat.eqb_spec (length (n_elts r)) (t_min t)).
     + rewrite Hs. cbn [bind]. exists l, pe, r. auto.
-    + destruct Hs as (l' & re & r' & -> & Hl' & Hr' & Hll & Hrl & He). cbn [bind].
+    + destruct Hs as (l' & re & r' & -> & Hl' & Hr' & Hll & Hrl & He & _). cbn [bind].
       destruct (IH h ea re eb ka l' r' kb lol H1 H2 Hl' Hr') as (l2 & pe2 & r2 & -> & ? & ? & He2); [lia|].
       exists l2, pe2, r2. repeat split; try assumption. congruence.
   - exists l, pe, r. auto.
@@ -300,9 +300,9 @@ Qed.
 
 (* ---------------------------------------------------------------- the whole tree *)
 
-(* the root may hold fewer than t-1 keys (an internal root is left with no key and one child
-   when a delete that merges the root's two children finds nothing to delete) *)
-Definition wfr (h : nat) (n : tree) : Prop := wfn 0 h n.
+(* the root may hold fewer than t-1 keys; an internal root holds at least one *)
+Definition root_lo (n : tree) : nat := if n_leaf n then 0%nat else 1%nat.
+Definition wfr (h : nat) (n : tree) : Prop := wfn (root_lo n) h n.
 
 
 Lemma grow_root_spec h root :
@@ -310,7 +310,7 @@ Lemma grow_root_spec h root :
   exists h1 root1, grow_root t root = Ok root1 /\ wfr h1 root1 /\ elements root1 = elements root /\
                    (length (n_elts root1) < t_max t)%nat.
 Proof.
-  intros Hw. unfold wfr in Hw. unfold grow_root. rewrite (is_maximal_ok t Ht _ _ _ Hw). cbn [bind].
+  intros Hw. unfold wfr, root_lo in Hw. unfold grow_root. rewrite (is_maximal_ok t Ht _ _ _ Hw). cbn [bind].
   pose proof (wfn_len t Ht _ _ _ Hw) as Hl.
   destruct (Nat.eqb_spec (length (n_elts root)) (t_max t)) as [Hmax|Hmax].
   - assert (Hw' : wfn (t_min t) h root).
@@ -321,7 +321,7 @@ Proof.
     destruct (Nat.eqb_spec 0 (t_max t)) as [H0|H0]; [unfold t_max in H0; lia|].
     cbn. exists (S h), (Node false [m] [l; r]). split; [reflexivity|].
     split; [|split].
-    + unfold wfr. cbn [n_leaf]. constructor; cbn; [unfold t_max; lia|reflexivity|]. repeat constructor; assumption.
+    + unfold wfr, root_lo. cbn [n_leaf]. constructor; cbn; [unfold t_max; lia|reflexivity|]. repeat constructor; assumption.
     + rewrite He. reflexivity.
     + cbn. unfold t_max. lia.
   - exists h, root. repeat split; try assumption. lia.
@@ -340,7 +340,9 @@ Proof.
   destruct (ins_spec io e h1 h1 (le_n _) _ root1 Hw1 Hl1) as (n' & -> & Hw' & He' & Hl').
   { now rewrite He1. }
   rewrite He1 in *. exists h1, n'. split; [reflexivity|]. split; [|split; [|assumption]].
-  - exact Hw'.
+  - unfold wfr, root_lo in *. replace (n_leaf n') with (n_leaf root1); [assumption|].
+    pose proof (wfn_leaf_iff t Ht _ _ _ Hw1). pose proof (wfn_leaf_iff t Ht _ _ _ Hw').
+    destruct (n_leaf root1), (n_leaf n'); try reflexivity; intuition congruence.
   - rewrite He'. now apply ins_sorted_sorted.
 Qed.
 
